@@ -1,4 +1,6 @@
 
+type __ = Obj.t
+
 (** val negb : bool -> bool **)
 
 let negb = function
@@ -80,6 +82,15 @@ type z =
 
 module Nat =
  struct
+  (** val sub : nat -> nat -> nat **)
+
+  let rec sub n m =
+    match n with
+    | O -> n
+    | S k -> (match m with
+              | O -> n
+              | S l -> sub k l)
+
   (** val eqb : nat -> nat -> bool **)
 
   let rec eqb n m =
@@ -113,6 +124,22 @@ module Nat =
     | S n' -> (match m with
                | O -> O
                | S m' -> S (min n' m'))
+
+  (** val divmod : nat -> nat -> nat -> nat -> nat * nat **)
+
+  let rec divmod x y q0 u =
+    match x with
+    | O -> (q0, u)
+    | S x' ->
+      (match u with
+       | O -> divmod x' y (S q0) y
+       | S u' -> divmod x' y q0 u')
+
+  (** val modulo : nat -> nat -> nat **)
+
+  let modulo x = function
+  | O -> x
+  | S y' -> sub y' (snd (divmod x y' O y'))
  end
 
 module Pos =
@@ -351,6 +378,20 @@ module Coq_Pos =
   let rec of_succ_nat = function
   | O -> XH
   | S x -> succ (of_succ_nat x)
+
+  (** val eq_dec : positive -> positive -> bool **)
+
+  let rec eq_dec p x0 =
+    match p with
+    | XI p0 -> (match x0 with
+                | XI p1 -> eq_dec p0 p1
+                | _ -> false)
+    | XO p0 -> (match x0 with
+                | XO p1 -> eq_dec p0 p1
+                | _ -> false)
+    | XH -> (match x0 with
+             | XH -> true
+             | _ -> false)
  end
 
 module Z =
@@ -580,6 +621,20 @@ module Z =
        | Zneg b0 ->
          let (g, p) = Coq_Pos.ggcd a0 b0 in
          let (aa, bb) = p in ((Zpos g), ((Zneg aa), (Zneg bb))))
+
+  (** val eq_dec : z -> z -> bool **)
+
+  let eq_dec x y =
+    match x with
+    | Z0 -> (match y with
+             | Z0 -> true
+             | _ -> false)
+    | Zpos p -> (match y with
+                 | Zpos p0 -> Coq_Pos.eq_dec p p0
+                 | _ -> false)
+    | Zneg p -> (match y with
+                 | Zneg p0 -> Coq_Pos.eq_dec p p0
+                 | _ -> false)
  end
 
 (** val hd : 'a1 -> 'a1 list -> 'a1 **)
@@ -655,6 +710,35 @@ let rec repeat x = function
 
 type q = { qnum : z; qden : positive }
 
+(** val qeq_dec : q -> q -> bool **)
+
+let qeq_dec x y =
+  Z.eq_dec (Z.mul x.qnum (Zpos y.qden)) (Z.mul y.qnum (Zpos x.qden))
+
+(** val qplus : q -> q -> q **)
+
+let qplus x y =
+  { qnum = (Z.add (Z.mul x.qnum (Zpos y.qden)) (Z.mul y.qnum (Zpos x.qden)));
+    qden = (Coq_Pos.mul x.qden y.qden) }
+
+(** val qmult : q -> q -> q **)
+
+let qmult x y =
+  { qnum = (Z.mul x.qnum y.qnum); qden = (Coq_Pos.mul x.qden y.qden) }
+
+(** val qopp : q -> q **)
+
+let qopp x =
+  { qnum = (Z.opp x.qnum); qden = x.qden }
+
+(** val qinv : q -> q **)
+
+let qinv x =
+  match x.qnum with
+  | Z0 -> { qnum = Z0; qden = XH }
+  | Zpos p -> { qnum = (Zpos x.qden); qden = p }
+  | Zneg p -> { qnum = (Zneg x.qden); qden = p }
+
 (** val qred : q -> q **)
 
 let qred q0 =
@@ -674,6 +758,150 @@ let this q0 =
 
 let q2Qc =
   qred
+
+(** val qc_eq_dec : qc -> qc -> bool **)
+
+let qc_eq_dec x y =
+  qeq_dec (this x) (this y)
+
+(** val qcplus : qc -> qc -> qc **)
+
+let qcplus x y =
+  q2Qc (qplus (this x) (this y))
+
+(** val qcmult : qc -> qc -> qc **)
+
+let qcmult x y =
+  q2Qc (qmult (this x) (this y))
+
+(** val qcopp : qc -> qc **)
+
+let qcopp x =
+  q2Qc (qopp (this x))
+
+(** val qcminus : qc -> qc -> qc **)
+
+let qcminus x y =
+  qcplus x (qcopp y)
+
+(** val qcinv : qc -> qc **)
+
+let qcinv x =
+  q2Qc (qinv (this x))
+
+(** val qcdiv : qc -> qc -> qc **)
+
+let qcdiv x y =
+  qcmult x (qcinv y)
+
+(** val qc_eq_bool : qc -> qc -> bool **)
+
+let qc_eq_bool x y =
+  if qc_eq_dec x y then true else false
+
+type ops = { o0 : __; o1 : __; oadd : (__ -> __ -> __);
+             omul : (__ -> __ -> __); osub : (__ -> __ -> __);
+             oopp : (__ -> __); odiv : (__ -> __ -> __); oinv : (__ -> __);
+             oeqb : (__ -> __ -> bool) }
+
+type car = __
+
+(** val fpos : ops -> positive -> car **)
+
+let rec fpos k = function
+| XI q0 -> k.oadd k.o1 (k.omul (k.oadd k.o1 k.o1) (fpos k q0))
+| XO q0 -> k.omul (k.oadd k.o1 k.o1) (fpos k q0)
+| XH -> k.o1
+
+(** val fz : ops -> z -> car **)
+
+let fz k = function
+| Z0 -> k.o0
+| Zpos p -> fpos k p
+| Zneg p -> k.oopp (fpos k p)
+
+(** val fpow : ops -> car -> nat -> car **)
+
+let rec fpow k x = function
+| O -> k.o1
+| S m -> k.omul x (fpow k x m)
+
+(** val fsum : ops -> car list -> car **)
+
+let rec fsum k = function
+| [] -> k.o0
+| x :: r -> k.oadd x (fsum k r)
+
+(** val qcOps : ops **)
+
+let qcOps =
+  { o0 = (Obj.magic q2Qc { qnum = Z0; qden = XH }); o1 =
+    (Obj.magic q2Qc { qnum = (Zpos XH); qden = XH }); oadd =
+    (Obj.magic qcplus); omul = (Obj.magic qcmult); osub =
+    (Obj.magic qcminus); oopp = (Obj.magic qcopp); odiv = (Obj.magic qcdiv);
+    oinv = (Obj.magic qcinv); oeqb = (Obj.magic qc_eq_bool) }
+
+type 'k cx = { re : 'k; im : 'k }
+
+(** val c0 : ops -> car cx **)
+
+let c0 k =
+  { re = k.o0; im = k.o0 }
+
+(** val c1 : ops -> car cx **)
+
+let c1 k =
+  { re = k.o1; im = k.o0 }
+
+(** val cadd : ops -> car cx -> car cx -> car cx **)
+
+let cadd k a b =
+  { re = (k.oadd a.re b.re); im = (k.oadd a.im b.im) }
+
+(** val csub : ops -> car cx -> car cx -> car cx **)
+
+let csub k a b =
+  { re = (k.osub a.re b.re); im = (k.osub a.im b.im) }
+
+(** val copp : ops -> car cx -> car cx **)
+
+let copp k a =
+  { re = (k.oopp a.re); im = (k.oopp a.im) }
+
+(** val cmul : ops -> car cx -> car cx -> car cx **)
+
+let cmul k a b =
+  { re = (k.osub (k.omul a.re b.re) (k.omul a.im b.im)); im =
+    (k.oadd (k.omul a.re b.im) (k.omul a.im b.re)) }
+
+(** val cnorm2 : ops -> car cx -> car **)
+
+let cnorm2 k a =
+  k.oadd (k.omul a.re a.re) (k.omul a.im a.im)
+
+(** val cinv : ops -> car cx -> car cx **)
+
+let cinv k a =
+  { re = (k.odiv a.re (cnorm2 k a)); im =
+    (k.odiv (k.oopp a.im) (cnorm2 k a)) }
+
+(** val cdiv : ops -> car cx -> car cx -> car cx **)
+
+let cdiv k a b =
+  cmul k a (cinv k b)
+
+(** val ceqb : ops -> car cx -> car cx -> bool **)
+
+let ceqb k a b =
+  (&&) (k.oeqb a.re b.re) (k.oeqb a.im b.im)
+
+(** val cOps : ops -> ops **)
+
+let cOps k =
+  { o0 = (Obj.magic c0 k); o1 = (Obj.magic c1 k); oadd = (Obj.magic cadd k);
+    omul = (Obj.magic cmul k); osub = (Obj.magic csub k); oopp =
+    (Obj.magic copp k); odiv = (Obj.magic cdiv k); oinv = (Obj.magic cinv k);
+    oeqb = (Obj.magic ceqb k) }
 
 (** val qz : q -> z **)
 
@@ -699,6 +927,37 @@ let nq n =
 
 let qb q0 =
   negb (Z.eqb q0.qnum Z0)
+
+(** val qqc : q -> qc **)
+
+let qqc =
+  q2Qc
+
+(** val qcq : qc -> q **)
+
+let qcq =
+  this
+
+(** val cQ : ops **)
+
+let cQ =
+  cOps qcOps
+
+(** val take_cx : q list -> car list **)
+
+let rec take_cx = function
+| [] -> []
+| a :: l0 ->
+  (match l0 with
+   | [] -> []
+   | b :: r -> (Obj.magic { re = (qqc a); im = (qqc b) }) :: (take_cx r))
+
+(** val put_cx : car list -> q list **)
+
+let rec put_cx = function
+| [] -> []
+| z0 :: r ->
+  (qcq (Obj.magic z0).re) :: ((qcq (Obj.magic z0).im) :: (put_cx r))
 
 (** val getq : q list -> nat -> q **)
 
@@ -800,6 +1059,207 @@ let stack_sub_tree leaves sub_len =
                   | None -> []) leaves)
     else None
 
+(** val etdrk1_integrand_1 : ops -> car -> car -> car -> car **)
+
+let etdrk1_integrand_1 k lr e _ =
+  k.odiv (k.osub e (fz k (Zpos XH))) lr
+
+(** val etdrk1_step :
+    ops -> ('a1 -> car) -> ('a1 -> car) -> (('a1 -> car) -> 'a1 -> car) ->
+    ('a1 -> car) -> 'a1 -> car **)
+
+let etdrk1_step k e c2 nL u_hat k0 =
+  k.oadd (k.omul (e k0) (u_hat k0)) (k.omul (c2 k0) (nL u_hat k0))
+
+(** val etdrk2_integrand_1 : ops -> car -> car -> car -> car **)
+
+let etdrk2_integrand_1 k lr e _ =
+  k.odiv (k.osub e (fz k (Zpos XH))) lr
+
+(** val etdrk2_integrand_2 : ops -> car -> car -> car -> car **)
+
+let etdrk2_integrand_2 k lr e _ =
+  k.odiv (k.osub (k.osub e (fz k (Zpos XH))) lr) (fpow k lr (S (S O)))
+
+(** val etdrk2_step :
+    ops -> ('a1 -> car) -> ('a1 -> car) -> ('a1 -> car) -> (('a1 -> car) ->
+    'a1 -> car) -> ('a1 -> car) -> 'a1 -> car **)
+
+let etdrk2_step k e c2 c3 nL u_hat =
+  let u_nonlin_hat = nL u_hat in
+  let u_stage_1_hat = fun k0 ->
+    k.oadd (k.omul (e k0) (u_hat k0)) (k.omul (c2 k0) (u_nonlin_hat k0))
+  in
+  let u_stage_1_nonlin_hat = nL u_stage_1_hat in
+  (fun k0 ->
+  k.oadd (u_stage_1_hat k0)
+    (k.omul (c3 k0) (k.osub (u_stage_1_nonlin_hat k0) (u_nonlin_hat k0))))
+
+(** val etdrk3_integrand_1 : ops -> car -> car -> car -> car **)
+
+let etdrk3_integrand_1 k lr _ eh =
+  k.odiv (k.osub eh (fz k (Zpos XH))) lr
+
+(** val etdrk3_integrand_2 : ops -> car -> car -> car -> car **)
+
+let etdrk3_integrand_2 k lr e _ =
+  k.odiv (k.osub e (fz k (Zpos XH))) lr
+
+(** val etdrk3_integrand_3 : ops -> car -> car -> car -> car **)
+
+let etdrk3_integrand_3 k lr e _ =
+  k.odiv
+    (k.oadd (k.osub (fz k (Zneg (XO (XO XH)))) lr)
+      (k.omul e
+        (k.oadd
+          (k.osub (fz k (Zpos (XO (XO XH))))
+            (k.omul (fz k (Zpos (XI XH))) lr)) (fpow k lr (S (S O))))))
+    (fpow k lr (S (S (S O))))
+
+(** val etdrk3_integrand_4 : ops -> car -> car -> car -> car **)
+
+let etdrk3_integrand_4 k lr e _ =
+  k.odiv
+    (k.omul (fz k (Zpos (XO (XO XH))))
+      (k.oadd (k.oadd (fz k (Zpos (XO XH))) lr)
+        (k.omul e (k.oadd (fz k (Zneg (XO XH))) lr))))
+    (fpow k lr (S (S (S O))))
+
+(** val etdrk3_integrand_5 : ops -> car -> car -> car -> car **)
+
+let etdrk3_integrand_5 k lr e _ =
+  k.odiv
+    (k.oadd
+      (k.osub
+        (k.osub (fz k (Zneg (XO (XO XH)))) (k.omul (fz k (Zpos (XI XH))) lr))
+        (fpow k lr (S (S O))))
+      (k.omul e (k.osub (fz k (Zpos (XO (XO XH)))) lr)))
+    (fpow k lr (S (S (S O))))
+
+(** val etdrk3_step :
+    ops -> ('a1 -> car) -> ('a1 -> car) -> ('a1 -> car) -> ('a1 -> car) ->
+    ('a1 -> car) -> ('a1 -> car) -> ('a1 -> car) -> (('a1 -> car) -> 'a1 ->
+    car) -> ('a1 -> car) -> 'a1 -> car **)
+
+let etdrk3_step k e eh c2 c3 c4 c5 c6 nL u_hat =
+  let u_nonlin_hat = nL u_hat in
+  let u_stage_1_hat = fun k0 ->
+    k.oadd (k.omul (eh k0) (u_hat k0)) (k.omul (c2 k0) (u_nonlin_hat k0))
+  in
+  let u_stage_1_nonlin_hat = nL u_stage_1_hat in
+  let u_stage_2_hat = fun k0 ->
+    k.oadd (k.omul (e k0) (u_hat k0))
+      (k.omul (c3 k0)
+        (k.osub (k.omul (fz k (Zpos (XO XH))) (u_stage_1_nonlin_hat k0))
+          (u_nonlin_hat k0)))
+  in
+  let u_stage_2_nonlin_hat = nL u_stage_2_hat in
+  (fun k0 ->
+  k.oadd
+    (k.oadd
+      (k.oadd (k.omul (e k0) (u_hat k0)) (k.omul (c4 k0) (u_nonlin_hat k0)))
+      (k.omul (c5 k0) (u_stage_1_nonlin_hat k0)))
+    (k.omul (c6 k0) (u_stage_2_nonlin_hat k0)))
+
+(** val etdrk4_integrand_1 : ops -> car -> car -> car -> car **)
+
+let etdrk4_integrand_1 k lr _ eh =
+  k.odiv (k.osub eh (fz k (Zpos XH))) lr
+
+(** val etdrk4_integrand_2 : ops -> car -> car -> car -> car **)
+
+let etdrk4_integrand_2 k lr _ eh =
+  k.odiv (k.osub eh (fz k (Zpos XH))) lr
+
+(** val etdrk4_integrand_3 : ops -> car -> car -> car -> car **)
+
+let etdrk4_integrand_3 k lr _ eh =
+  k.odiv (k.osub eh (fz k (Zpos XH))) lr
+
+(** val etdrk4_integrand_4 : ops -> car -> car -> car -> car **)
+
+let etdrk4_integrand_4 k lr e _ =
+  k.odiv
+    (k.oadd (k.osub (fz k (Zneg (XO (XO XH)))) lr)
+      (k.omul e
+        (k.oadd
+          (k.osub (fz k (Zpos (XO (XO XH))))
+            (k.omul (fz k (Zpos (XI XH))) lr)) (fpow k lr (S (S O))))))
+    (fpow k lr (S (S (S O))))
+
+(** val etdrk4_integrand_5 : ops -> car -> car -> car -> car **)
+
+let etdrk4_integrand_5 k lr e _ =
+  k.odiv
+    (k.oadd (k.oadd (fz k (Zpos (XO XH))) lr)
+      (k.omul e (k.oadd (fz k (Zneg (XO XH))) lr))) (fpow k lr (S (S (S O))))
+
+(** val etdrk4_integrand_6 : ops -> car -> car -> car -> car **)
+
+let etdrk4_integrand_6 k lr e _ =
+  k.odiv
+    (k.oadd
+      (k.osub
+        (k.osub (fz k (Zneg (XO (XO XH)))) (k.omul (fz k (Zpos (XI XH))) lr))
+        (fpow k lr (S (S O))))
+      (k.omul e (k.osub (fz k (Zpos (XO (XO XH)))) lr)))
+    (fpow k lr (S (S (S O))))
+
+(** val etdrk4_step :
+    ops -> ('a1 -> car) -> ('a1 -> car) -> ('a1 -> car) -> ('a1 -> car) ->
+    ('a1 -> car) -> ('a1 -> car) -> ('a1 -> car) -> ('a1 -> car) -> (('a1 ->
+    car) -> 'a1 -> car) -> ('a1 -> car) -> 'a1 -> car **)
+
+let etdrk4_step k e eh c2 c3 c4 c5 c6 c7 nL u_hat =
+  let u_nonlin_hat = nL u_hat in
+  let u_stage_1_hat = fun k0 ->
+    k.oadd (k.omul (eh k0) (u_hat k0)) (k.omul (c2 k0) (u_nonlin_hat k0))
+  in
+  let u_stage_1_nonlin_hat = nL u_stage_1_hat in
+  let u_stage_2_hat = fun k0 ->
+    k.oadd (k.omul (eh k0) (u_hat k0))
+      (k.omul (c3 k0) (u_stage_1_nonlin_hat k0))
+  in
+  let u_stage_2_nonlin_hat = nL u_stage_2_hat in
+  let u_stage_3_hat = fun k0 ->
+    k.oadd (k.omul (eh k0) (u_stage_1_hat k0))
+      (k.omul (c4 k0)
+        (k.osub (k.omul (fz k (Zpos (XO XH))) (u_stage_2_nonlin_hat k0))
+          (u_nonlin_hat k0)))
+  in
+  let u_stage_3_nonlin_hat = nL u_stage_3_hat in
+  (fun k0 ->
+  k.oadd
+    (k.oadd
+      (k.oadd (k.omul (e k0) (u_hat k0)) (k.omul (c5 k0) (u_nonlin_hat k0)))
+      (k.omul (k.omul (c6 k0) (fz k (Zpos (XO XH))))
+        (k.oadd (u_stage_1_nonlin_hat k0) (u_stage_2_nonlin_hat k0))))
+    (k.omul (c7 k0) (u_stage_3_nonlin_hat k0)))
+
+(** val etdrk0_step : ops -> ('a1 -> car) -> ('a1 -> car) -> 'a1 -> car **)
+
+let etdrk0_step k e u_hat k0 =
+  k.omul (e k0) (u_hat k0)
+
+(** val order_dispatch : z -> nat option **)
+
+let order_dispatch = function
+| Z0 -> Some O
+| Zpos p ->
+  (match p with
+   | XI p0 -> (match p0 with
+               | XH -> Some (S (S (S O)))
+               | _ -> None)
+   | XO p0 ->
+     (match p0 with
+      | XI _ -> None
+      | XO p1 -> (match p1 with
+                  | XH -> Some (S (S (S (S O))))
+                  | _ -> None)
+      | XH -> Some (S (S O)))
+   | XH -> Some (S O))
+| Zneg _ -> None
+
 (** val aff : z -> z -> z -> z **)
 
 let aff a b u =
@@ -891,6 +1351,199 @@ let run_c14 sub0 a =
            (qz (getq a (S (S (S (S O))))))))
   | _ -> []
 
+(** val sel_integrand : z -> z -> car -> car -> car -> car **)
+
+let sel_integrand p j =
+  match p with
+  | Zpos p0 ->
+    (match p0 with
+     | XI p1 ->
+       (match p1 with
+        | XH ->
+          (match j with
+           | Zpos p2 ->
+             (match p2 with
+              | XI p3 ->
+                (match p3 with
+                 | XI _ -> (fun _ _ _ -> Obj.magic c0 qcOps)
+                 | XO p4 ->
+                   (match p4 with
+                    | XH -> etdrk3_integrand_5 cQ
+                    | _ -> (fun _ _ _ -> Obj.magic c0 qcOps))
+                 | XH -> etdrk3_integrand_3 cQ)
+              | XO p3 ->
+                (match p3 with
+                 | XI _ -> (fun _ _ _ -> Obj.magic c0 qcOps)
+                 | XO p4 ->
+                   (match p4 with
+                    | XH -> etdrk3_integrand_4 cQ
+                    | _ -> (fun _ _ _ -> Obj.magic c0 qcOps))
+                 | XH -> etdrk3_integrand_2 cQ)
+              | XH -> etdrk3_integrand_1 cQ)
+           | _ -> (fun _ _ _ -> Obj.magic c0 qcOps))
+        | _ -> (fun _ _ _ -> Obj.magic c0 qcOps))
+     | XO p1 ->
+       (match p1 with
+        | XI _ -> (fun _ _ _ -> Obj.magic c0 qcOps)
+        | XO p2 ->
+          (match p2 with
+           | XH ->
+             (match j with
+              | Zpos p3 ->
+                (match p3 with
+                 | XI p4 ->
+                   (match p4 with
+                    | XI _ -> (fun _ _ _ -> Obj.magic c0 qcOps)
+                    | XO p5 ->
+                      (match p5 with
+                       | XH -> etdrk4_integrand_5 cQ
+                       | _ -> (fun _ _ _ -> Obj.magic c0 qcOps))
+                    | XH -> etdrk4_integrand_3 cQ)
+                 | XO p4 ->
+                   (match p4 with
+                    | XI p5 ->
+                      (match p5 with
+                       | XH -> etdrk4_integrand_6 cQ
+                       | _ -> (fun _ _ _ -> Obj.magic c0 qcOps))
+                    | XO p5 ->
+                      (match p5 with
+                       | XH -> etdrk4_integrand_4 cQ
+                       | _ -> (fun _ _ _ -> Obj.magic c0 qcOps))
+                    | XH -> etdrk4_integrand_2 cQ)
+                 | XH -> etdrk4_integrand_1 cQ)
+              | _ -> (fun _ _ _ -> Obj.magic c0 qcOps))
+           | _ -> (fun _ _ _ -> Obj.magic c0 qcOps))
+        | XH ->
+          (match j with
+           | Zpos p2 ->
+             (match p2 with
+              | XI _ -> (fun _ _ _ -> Obj.magic c0 qcOps)
+              | XO p3 ->
+                (match p3 with
+                 | XH -> etdrk2_integrand_2 cQ
+                 | _ -> (fun _ _ _ -> Obj.magic c0 qcOps))
+              | XH -> etdrk2_integrand_1 cQ)
+           | _ -> (fun _ _ _ -> Obj.magic c0 qcOps)))
+     | XH ->
+       (match j with
+        | Zpos p1 ->
+          (match p1 with
+           | XH -> etdrk1_integrand_1 cQ
+           | _ -> (fun _ _ _ -> Obj.magic c0 qcOps))
+        | _ -> (fun _ _ _ -> Obj.magic c0 qcOps)))
+  | _ -> (fun _ _ _ -> Obj.magic c0 qcOps)
+
+(** val triples : car list -> ((car * car) * car) list **)
+
+let rec triples = function
+| [] -> []
+| a :: l0 ->
+  (match l0 with
+   | [] -> []
+   | b :: l1 ->
+     (match l1 with
+      | [] -> []
+      | c :: r -> ((a, b), c) :: (triples r)))
+
+(** val cq_of_z : z -> car **)
+
+let cq_of_z z0 =
+  Obj.magic { re = (qqc (zq z0)); im = (qqc { qnum = Z0; qden = XH }) }
+
+(** val contour_coef : z -> z -> car -> ((car * car) * car) list -> car **)
+
+let contour_coef p j dt pts =
+  let f = sel_integrand p j in
+  let s = fsum cQ (map (fun t -> f (fst (fst t)) (snd (fst t)) (snd t)) pts)
+  in
+  cQ.omul dt (cQ.odiv s (cq_of_z (Z.of_nat (length pts))))
+
+(** val vec : car list -> nat -> car **)
+
+let vec l k =
+  nth k l (Obj.magic c0 qcOps)
+
+(** val test_nl : nat -> (nat -> car) -> nat -> car **)
+
+let test_nl n u k =
+  cQ.oadd (cQ.omul (u k) (u k)) (u (Nat.modulo (S k) n))
+
+(** val chunks : nat -> nat -> 'a1 list -> 'a1 list list **)
+
+let rec chunks n m l =
+  match m with
+  | O -> []
+  | S m' -> (firstn n l) :: (chunks n m' (skipn n l))
+
+(** val run_c02 : z -> q list -> q list **)
+
+let run_c02 sub0 a =
+  match sub0 with
+  | Zpos p ->
+    (match p with
+     | XI p0 ->
+       (match p0 with
+        | XH ->
+          (match order_dispatch (qz (getq a O)) with
+           | Some c -> (nq c) :: []
+           | None -> { qnum = (Zneg XH); qden = XH } :: [])
+        | _ -> [])
+     | XO p0 ->
+       (match p0 with
+        | XH ->
+          let p1 = qz (getq a O) in
+          let n = qn (getq a (S O)) in
+          let arrs =
+            chunks n (S (S (S (S (S (S (S (S (S (S O))))))))))
+              (take_cx (skipn (S (S O)) a))
+          in
+          let g = fun i -> vec (nth i arrs []) in
+          let out =
+            match p1 with
+            | Z0 -> etdrk0_step cQ (g O) (g (S O))
+            | Zpos p2 ->
+              (match p2 with
+               | XI p3 ->
+                 (match p3 with
+                  | XH ->
+                    etdrk3_step cQ (g O) (g (S O)) (g (S (S O)))
+                      (g (S (S (S O)))) (g (S (S (S (S O)))))
+                      (g (S (S (S (S (S O)))))) (g (S (S (S (S (S (S O)))))))
+                      (test_nl n) (g (S (S (S (S (S (S (S O))))))))
+                  | _ -> (fun _ -> Obj.magic c0 qcOps))
+               | XO p3 ->
+                 (match p3 with
+                  | XI _ -> (fun _ -> Obj.magic c0 qcOps)
+                  | XO p4 ->
+                    (match p4 with
+                     | XH ->
+                       etdrk4_step cQ (g O) (g (S O)) (g (S (S O)))
+                         (g (S (S (S O)))) (g (S (S (S (S O)))))
+                         (g (S (S (S (S (S O))))))
+                         (g (S (S (S (S (S (S O)))))))
+                         (g (S (S (S (S (S (S (S O)))))))) (test_nl n)
+                         (g (S (S (S (S (S (S (S (S O)))))))))
+                     | _ -> (fun _ -> Obj.magic c0 qcOps))
+                  | XH ->
+                    etdrk2_step cQ (g O) (g (S O)) (g (S (S O))) (test_nl n)
+                      (g (S (S (S O)))))
+               | XH ->
+                 etdrk1_step cQ (g O) (g (S O)) (test_nl n) (g (S (S O))))
+            | Zneg _ -> (fun _ -> Obj.magic c0 qcOps)
+          in
+          put_cx (map out (seq O n))
+        | _ -> [])
+     | XH ->
+       let p0 = qz (getq a O) in
+       let j = qz (getq a (S O)) in
+       let dt = { re = (qqc (getq a (S (S O)))); im =
+         (qqc (getq a (S (S (S O))))) }
+       in
+       put_cx
+         ((contour_coef p0 j (Obj.magic dt)
+            (triples (take_cx (skipn (S (S (S (S O)))) a)))) :: []))
+  | _ -> []
+
 (** val run : z -> q list -> q list **)
 
 let run id a =
@@ -906,6 +1559,7 @@ let run id a =
                         | XH -> run_c14 sub0 a
                         | _ -> [])
             | _ -> [])
-         | _ -> [])
+         | XO _ -> []
+         | XH -> run_c02 sub0 a)
       | _ -> [])
    | _ -> [])
